@@ -293,7 +293,7 @@ class Program:
                   'ConstantExpr', 'CXXFunctionalCastExpr', 'CStyleCastExpr', 'CXXStaticCastExpr', 'DeclRefExpr',
                   'MemberExpr', 'CXXThisExpr', 'IntegerLiteral', 'FloatingLiteral', 'CXXBoolLiteralExpr',
                   'CharacterLiteral', 'UnaryOperator', 'BinaryOperator', 'ConditionalOperator', 'CallExpr',
-                  'CXXMemberCallExpr', 'ArraySubscriptExpr', 'SubstNonTypeTemplateParmExpr'}
+                  'CXXMemberCallExpr', 'ArraySubscriptExpr', 'SubstNonTypeTemplateParmExpr', 'CXXOperatorCallExpr'}
 
     def _helper_root(self, g):
         """return expression of a helper whose body is `{ return e; }` with e free of side effects, else None."""
@@ -327,9 +327,12 @@ class Program:
                 return None
             if n['k'] == 'UnaryOperator' and n.get('op') in ('++', '--'):
                 return None
-            if n['k'] in ('CallExpr', 'CXXMemberCallExpr'):
+            if n['k'] in ('CallExpr', 'CXXMemberCallExpr', 'CXXOperatorCallExpr'):
                 ce = n.get('callee') or {}
                 if any(k_ in ('r', 'p') for k_ in ce.get('pk', [])) or (ce.get('method') and not ce.get('mconst') and not ce.get('mstatic')):
+                    return None
+                if n['k'] == 'CXXOperatorCallExpr' and not (ce.get('method') and ce.get('mconst') and n.get('op', ce.get('name', '')) in ('[]', 'operator[]')):
+                    # only the element read of a const container (`s[i]` on a const std::string / std::vector)
                     return None
         return root
 
